@@ -87,6 +87,57 @@ Definition pads_of (p : padding) (n : nat) (c : convcfg) : pmode * nat * nat :=
 Definition conv1d (c : convcfg) (p : padding) (x : sig) : sig :=
   let '(m, lo, hi) := pads_of p (length x) c in conv_impl c m lo hi x.
 
+(* ---------------- 2-D convolution ---------------- *)
+(* the same code path with two spatial dimensions: jnp.pad pads both (one boundary rule), then a VALID convolution *)
+Definition img := list sig.                  (* height x width x channels *)
+Definition ext_sig (m : pmode) (x : img) (i : Z) : sig :=
+  match ext_index m (length x) i with Some j => nth j x [] | None => [] end.
+Definition pix (m : pmode) (x : img) (i1 i2 : Z) : row := ext_row m (ext_sig m x i1) i2.
+Definition pad_img (m : pmode) (lo1 hi1 lo2 hi2 : nat) (x : img) : img :=
+  let rows := map (pad_sig m lo2 hi2) x in
+  map (fun j => ext_sig m rows (Z.of_nat j - Z.of_nat lo1)) (seq 0 (lo1 + length x + hi1)).
+
+Record conv2cfg := mkConv2 { c2_k : list (list (list row));      (* kernel[t1][t2][ci][f] *)
+                             c2_bias : option row;
+                             c2_s1 : nat; c2_s2 : nat; c2_d1 : nat; c2_d2 : nat; c2_groups : nat;
+                             c2_cin : nat; c2_feats : nat }.
+Definition k2size1 (c : conv2cfg) : nat := length (c2_k c).
+Definition k2size2 (c : conv2cfg) : nat := length (nth 0 (c2_k c) []).
+Definition k2get (c : conv2cfg) (t1 t2 ci f : nat) : Z := getc (nth ci (nth t2 (nth t1 (c2_k c) []) []) []) f.
+
+Definition conv2_out (c : conv2cfg) (m : pmode) (lo1 lo2 : Z) (x : img) (o1 o2 f : nat) : Z :=
+  let cg := (c2_cin c / c2_groups c)%nat in
+  let fg := (c2_feats c / c2_groups c)%nat in
+  let g := (f / fg)%nat in
+  zsum (map (fun t1 => zsum (map (fun t2 =>
+          let r := pix m x (Z.of_nat (o1 * c2_s1 c + t1 * c2_d1 c) - lo1) (Z.of_nat (o2 * c2_s2 c + t2 * c2_d2 c) - lo2) in
+          zsum (map (fun ci => getc r (g * cg + ci) * k2get c t1 t2 ci f) (seq 0 cg)))
+        (seq 0 (k2size2 c)))) (seq 0 (k2size1 c)))
+  + match c2_bias c with Some b => getc b f | None => 0 end.
+Definition conv2_spec (c : conv2cfg) (m : pmode) (lo1 lo2 : Z) (n1 n2 : nat) (x : img) : list sig :=
+  map (fun o1 => map (fun o2 => map (fun f => conv2_out c m lo1 lo2 x o1 o2 f) (seq 0 (c2_feats c))) (seq 0 n2)) (seq 0 n1).
+
+Definition olen (n lo hi ke s : nat) : nat := ((n + lo + hi - ke) / s + 1)%nat.
+Definition keff1 (c : conv2cfg) : nat := ((k2size1 c - 1) * c2_d1 c + 1)%nat.
+Definition keff2 (c : conv2cfg) : nat := ((k2size2 c - 1) * c2_d2 c + 1)%nat.
+Definition conv2_impl (c : conv2cfg) (m : pmode) (lo1 hi1 lo2 hi2 : nat) (w : nat) (x : img) : list sig :=
+  conv2_spec c PZero 0 0 (olen (length x) lo1 hi1 (keff1 c) (c2_s1 c)) (olen w lo2 hi2 (keff2 c) (c2_s2 c)) (pad_img m lo1 hi1 lo2 hi2 x).
+
+(* padding by name, per dimension, as for one dimension *)
+Definition pads1 (p : padding) (n ke s d k : nat) : pmode * nat * nat :=
+  match p with
+  | PadValid => (PZero, 0, 0)%nat
+  | PadSame => let total := ((ceil_div n s - 1) * s + ke - n)%nat in (PZero, total / 2, total - total / 2)%nat
+  | PadCircular => (PWrap, (ke - 1) / 2, ke / 2)%nat
+  | PadReflect => (PReflect, (ke - 1) / 2, ke / 2)%nat
+  | PadCausal => (PZero, d * (k - 1), 0)%nat
+  | PadExplicit lo hi => (PZero, lo, hi)
+  end.
+Definition conv2d (c : conv2cfg) (p1 p2 : padding) (w : nat) (x : img) : list sig :=
+  let '(m, lo1, hi1) := pads1 p1 (length x) (keff1 c) (c2_s1 c) (c2_d1 c) (k2size1 c) in
+  let '(_, lo2, hi2) := pads1 p2 w (keff2 c) (c2_s2 c) (c2_d2 c) (k2size2 c) in
+  conv2_impl c m lo1 hi1 lo2 hi2 w x.
+
 (* ---------------- 1-D transposed convolution ---------------- *)
 (* lax.conv_transpose as ConvTranspose calls it: the input is dilated by the stride (lhs_dilation: s - 1 zero rows
    between consecutive rows), padded by the pair below and convolved with stride 1 and the kernel dilation; then the
